@@ -176,7 +176,8 @@ def forbidden_tokens():
 
 def build_harness():
     src = os.path.join(VERIF, "harness")
-    return run(["go", "test", "-c", "-tags", "verif", "-o", HARNESS_BIN, "."], cwd=src, env=goenv(), timeout=1800)
+    # -checklinkname=0: harness/randctl.go replaces the source of math/rand/v2's global generator (replayable jitter)
+    return run(["go", "test", "-c", "-tags", "verif", "-ldflags=-checklinkname=0", "-o", HARNESS_BIN, "."], cwd=src, env=goenv(), timeout=1800)
 
 
 RACE_BIN = os.path.join(os.path.dirname(HARNESS_BIN), "nleharness.race.test")
@@ -184,7 +185,7 @@ RACE_BIN = os.path.join(os.path.dirname(HARNESS_BIN), "nleharness.race.test")
 
 def build_harness_race():
     src = os.path.join(VERIF, "harness")
-    return run(["go", "test", "-c", "-race", "-tags", "verif", "-o", RACE_BIN, "."], cwd=src, env=goenv(), timeout=1800)
+    return run(["go", "test", "-c", "-race", "-tags", "verif", "-ldflags=-checklinkname=0", "-o", RACE_BIN, "."], cwd=src, env=goenv(), timeout=1800)
 
 
 def run_race(seed, ms, tier, outdir, procs):
